@@ -92,13 +92,46 @@ def insertUnit (x : Nat × Points) : List (Nat × Points) → List (Nat × Point
                else if x.1 = y.1 then x :: ys          -- `BTreeMap::insert` replaces
                else y :: insertUnit x ys
 
+/-- `<unit>=<other>`: the SAME handler object is registered under a second unit id (only used with
+    stateless `D` handlers, so sharing needs no model of its own: the alias gets a copy of the
+    points).  The instrumented handler logs its own label, i.e. the id it was created for. -/
+def parseAliases (s : String) : List (Nat × Nat) :=
+  if s = "-" then []
+  else (s.splitOn ";").filterMap fun u =>
+    match u.splitOn "=" with
+    | [a, b] => some (a.toNat?.getD 0, b.toNat?.getD 0)
+    | _ => none
+
 def parseUnits (s : String) : List (Nat × Points) :=
   if s = "-" then []
   else (s.splitOn ";").foldl (fun acc u =>
+    match u.splitOn "=" with
+    | [a, b] =>
+      match acc.find? (fun p => p.1 = b.toNat?.getD 0) with
+      | some p => insertUnit (a.toNat?.getD 0, p.2) acc
+      | none => acc
+    | _ =>
     match u.splitOn ":" with
     | [id, items] => insertUnit (id.toNat?.getD 0, Points.parse items) acc
     | [id] => insertUnit (id.toNat?.getD 0, {}) acc
     | _ => acc) []
+
+def relabelUnit (al : List (Nat × Nat)) (u : Nat) : Nat :=
+  match al.find? (fun p => p.1 = u) with
+  | some p => p.2
+  | none => u
+
+/-- handler calls are logged with the label of the handler object that received them -/
+def relabelCall (al : List (Nat × Nat)) : Call → Call
+  | .readCoil u a => .readCoil (relabelUnit al u) a
+  | .readDiscreteInput u a => .readDiscreteInput (relabelUnit al u) a
+  | .readHoldingRegister u a => .readHoldingRegister (relabelUnit al u) a
+  | .readInputRegister u a => .readInputRegister (relabelUnit al u) a
+  | .writeSingleCoil u i v => .writeSingleCoil (relabelUnit al u) i v
+  | .writeSingleRegister u i v => .writeSingleRegister (relabelUnit al u) i v
+  | .writeMultipleCoils u r items => .writeMultipleCoils (relabelUnit al u) r items
+  | .writeMultipleRegisters u r items => .writeMultipleRegisters (relabelUnit al u) r items
+  | c => c
 
 inductive SrvStep
   | data (bs : Bytes)
@@ -166,9 +199,11 @@ def runSrv (tok : List String) : String × String :=
     let cfg : ServerCfg Points := ⟨rtu, pointsHandler, parseAuth auth⟩
     let hs := parseUnits units
     let steps := parseSrvScript script
+    let al := parseAliases units
     let go (respond : List (Nat × Points) → Frame → FrameOut Points) : String :=
-      if rtu then srvOut (srvLoop (Rtu.parse .request) respond rtu .start RB.empty ⟨[], [], hs, none⟩ steps)
-      else srvOut (srvLoop Mbap.parse respond rtu .begin RB.empty ⟨[], [], hs, none⟩ steps)
+      let acc := if rtu then srvLoop (Rtu.parse .request) respond rtu .start RB.empty ⟨[], [], hs, none⟩ steps
+                 else srvLoop Mbap.parse respond rtu .begin RB.empty ⟨[], [], hs, none⟩ steps
+      srvOut { acc with calls := acc.calls.map (relabelCall al) }
     -- model: `runSession` (event-based formulation); specification: the reference server
     -- `Spec.Server.respond` driven by the reader threaded through the deliveries
     let script : List SessStep := (steps.map fun st => match st with
@@ -180,7 +215,7 @@ def runSrv (tok : List String) : String × String :=
     let endStr := match o.ended with
       | .eof => "io.eof" | .reset => "io.reset" | .shutdown => "shutdown"
       | .badFrame e => frameErrStr e | .running => "running"
-    let model := srvOut ⟨o.tx, o.calls, o.states, some endStr⟩
+    let model := srvOut ⟨o.tx, o.calls.map (relabelCall al), o.states, some endStr⟩
     (model, go (Spec.Server.respond cfg))
   | _ => ("bad-case", "bad-case")
 
